@@ -57,8 +57,12 @@ class XMLDocParser:
             cpp_class, cpp_method, method_args_names, member_defs)
 
         # Extract the docs for the function that matches cpp_class.cpp_method(*method_args_names).
+        # There may be more wrapped overloads than documented ones.
+        if documenting_index >= len(member_defs):
+            return ""
+
         return self.get_formatted_docstring(member_defs[documenting_index],
-                                            ignored_params) if member_defs else ""
+                                            ignored_params)
 
     def get_member_defs(self, xml_folder: str, cpp_class: str,
                         cpp_method: str):
@@ -186,7 +190,11 @@ class XMLDocParser:
 
             # Remember which parameters to ignore, if any
             for i in range(len(method_args_names), num_tot_params):
-                ignored_params.append(params[i].find("declname").text)
+                param_name = params[i].find("declname")
+                if param_name is None:
+                    param_name = params[i].find("defname")
+                if param_name is not None:
+                    ignored_params.append(param_name.text)
 
         return member_defs, ignored_params
 
